@@ -250,6 +250,11 @@ func (tx *FnTx) applyContract(c *FnContract, key string, names []string, args []
 	for _, en := range append(append([]Clause{}, c.Ensures...), c.GhostEns...) {
 		s, err := penv.TrBool(en.E)
 		if err != nil {
+			if strings.Contains(err.Error(), "unknown identifier") {
+				// clause over the callee's local variables: checked in its body, not usable by callers
+				tx.note("postcondition " + key + "#" + en.Label + " mentions callee locals: not assumed at call sites")
+				continue
+			}
 			panic(specErr{fmt.Sprintf("call to %s: ensures %s: %v", key, en.Label, err)})
 		}
 		tx.assumeReach(s)
@@ -266,7 +271,11 @@ func (tx *FnTx) checkCallAsserts(desc string, when string, st, pre *State, res [
 			continue
 		}
 		env := tx.baseEnv(st, pre)
-		env.resolve = tx.resolverAt(tx.curBlock, nil, true)
+		lim := tx.curIdx
+		if when == "after" {
+			lim = tx.curIdx + 1
+		}
+		env.resolve = tx.resolverUpTo(tx.curBlock, nil, true, lim)
 		for i, r := range res {
 			env.vars[fmt.Sprintf("callresult%d", i)] = r
 		}
